@@ -16,6 +16,7 @@ import random
 from google.protobuf.proto import serialize_length_prefixed
 
 from common import events_text
+from common import bn_id, iri_s, lit_dt, lit_lang, lit_lex  # noqa: E402
 from impl import IRI, BlankNode, DefaultGraph, Literal, Quad, Triple, jelly
 
 XSD_STRING = "http://www.w3.org/2001/XMLSchema#string"
@@ -153,19 +154,19 @@ class RefEncoder:
         return msg
 
     def fill_literal(self, lit: Literal, msg: jelly.RdfLiteral) -> None:
-        msg.lex = lit._lex
-        if lit._langtag:
-            msg.langtag = lit._langtag
-        elif lit._datatype and lit._datatype != XSD_STRING:
-            idx = self.ensure(self.dts, lit._datatype)
+        msg.lex = lit_lex(lit)
+        if lit_lang(lit):
+            msg.langtag = lit_lang(lit)
+        elif lit_dt(lit) and lit_dt(lit) != XSD_STRING:
+            idx = self.ensure(self.dts, lit_dt(lit))
             self.dts.last_reused = idx
             msg.datatype = idx
 
     def fill_spo(self, t, msg, slot: str) -> None:
         if isinstance(t, IRI):
-            getattr(msg, f"{slot}_iri").CopyFrom(self.iri_ids(t._iri))
+            getattr(msg, f"{slot}_iri").CopyFrom(self.iri_ids(iri_s(t)))
         elif isinstance(t, BlankNode):
-            setattr(msg, f"{slot}_bnode", t._identifier)
+            setattr(msg, f"{slot}_bnode", bn_id(t))
         elif isinstance(t, Literal):
             self.fill_literal(t, getattr(msg, f"{slot}_literal"))
         elif isinstance(t, Triple):
@@ -181,9 +182,9 @@ class RefEncoder:
         if t is DefaultGraph:
             msg.g_default_graph.CopyFrom(jelly.RdfDefaultGraph())
         elif isinstance(t, IRI):
-            msg.g_iri.CopyFrom(self.iri_ids(t._iri))
+            msg.g_iri.CopyFrom(self.iri_ids(iri_s(t)))
         elif isinstance(t, BlankNode):
-            msg.g_bnode = t._identifier
+            msg.g_bnode = bn_id(t)
         elif isinstance(t, Literal):
             self.fill_literal(t, msg.g_literal)
         else:
@@ -205,8 +206,8 @@ class RefEncoder:
         self.rep, self.stats = rep, stats
 
     def _norm(self, t):
-        if isinstance(t, Literal) and t._datatype == XSD_STRING:
-            return Literal(t._lex, t._langtag, None)
+        if isinstance(t, Literal) and lit_dt(t) == XSD_STRING:
+            return Literal(lit_lex(t), lit_lang(t), None)
         if isinstance(t, Triple):
             return Triple(*(self._norm(x) for x in t))
         return t
@@ -351,7 +352,7 @@ def build_valid_stream(r: random.Random, g, *, physical: int | None = None, n_st
     prev = None
     for _ in range(n):
         if version >= 2 and r.random() < 0.12:
-            enc.namespace(r.choice(["", "ex", "ü"]), g.iri()._iri)
+            enc.namespace(r.choice(["", "ex", "ü"]), iri_s(g.iri()))
         if r.random() < enc.p_early:
             enc.early_entry(r.choice(["zz", "http://early/", ""]))
         if physical == 3:
